@@ -12,7 +12,7 @@ Fixpoint seg_match (t : tmpl) (segs : list str) : bool :=
   match t, segs with
   | [], [] => true
   | Lit d :: t', s :: segs' => str_eqb d s && seg_match t' segs'
-  | Var _ :: t', _ :: segs' => seg_match t' segs'
+  | Var :: t', _ :: segs' => seg_match t' segs'
   | _, _ => false
   end.
 
@@ -20,8 +20,8 @@ Fixpoint seg_match (t : tmpl) (segs : list str) : bool :=
    from the left: t1 is strictly preferred to t2. *)
 Fixpoint pref_lt (t1 t2 : tmpl) : bool :=
   match t1, t2 with
-  | Lit _ :: _, Var _ :: _ => true
-  | Var _ :: _, Lit _ :: _ => false
+  | Lit _ :: _, Var :: _ => true
+  | Var :: _, Lit _ :: _ => false
   | _ :: r1, _ :: r2 => pref_lt r1 r2
   | _, _ => false
   end.
@@ -31,7 +31,7 @@ Fixpoint tmpl_equiv (t1 t2 : tmpl) : bool :=
   match t1, t2 with
   | [], [] => true
   | Lit a :: r1, Lit b :: r2 => str_eqb a b && tmpl_equiv r1 r2
-  | Var _ :: r1, Var _ :: r2 => tmpl_equiv r1 r2
+  | Var :: r1, Var :: r2 => tmpl_equiv r1 r2
   | _, _ => false
   end.
 
